@@ -65,6 +65,24 @@ func faithful(r Row, id int64) bool {
 	return r.Extra == 0 && r.B == fmt.Sprintf("r%d", id) && len(r.L) == 1 && r.L[0] == fmt.Sprintf("l%d", id)
 }
 
+// DeepRow reaches the same three columns through three levels of embedding (destination
+// form "validdeep").
+type DeepLeaf struct {
+	A int64  `db:"a"`
+	B string `db:"b"`
+	L string `db:"l"`
+}
+type DeepIn struct{ DeepLeaf }
+type DeepMid struct{ DeepIn }
+type DeepRow struct {
+	DeepMid
+	Extra int
+}
+
+func deepFaithful(r DeepRow, id int64) bool {
+	return r.Extra == 0 && r.B == fmt.Sprintf("r%d", id) && r.L == fmt.Sprintf("l%d", id)
+}
+
 // Unrelated is a destination the statements do not use.
 type Unrelated struct {
 	Z int `db:"z"`
@@ -77,6 +95,8 @@ const (
 	l4MapSQL = "SELECT (a, b, l) AS (&M.*) FROM t WHERE id IN ($IDs[:])"
 	// ... and of a map of sql.RawBytes (destination form "validraw")
 	l4RawSQL = "SELECT (a, b, l) AS (&RawM.*) FROM t WHERE id IN ($IDs[:])"
+	// ... and of a struct that reaches them through three levels of embedding ("validdeep")
+	l4DeepSQL = "SELECT &DeepRow.* FROM t WHERE id IN ($IDs[:])"
 )
 
 // l4Case is one scripted operation (DESIGN §4 G-F / G-H, runtime layer).
@@ -315,9 +335,9 @@ func genL4(r *rng.R) *l4Case {
 	}
 	switch c.Op {
 	case "get":
-		c.Dests = r.Pick([]string{"valid", "valid", "valid", "invalid", "none", "outcome+valid", "niloutcome+valid", "outcome", "outcome+invalid", "validmap"})
+		c.Dests = r.Pick([]string{"valid", "valid", "valid", "invalid", "none", "outcome+valid", "niloutcome+valid", "outcome", "outcome+invalid", "validmap", "validdeep"})
 	case "getall":
-		c.Dests = r.Pick([]string{"valid", "valid", "validptr", "validcap", "validmap", "validnil", "invalid", "none", "nonptr", "nilptr", "ptrnonslice", "sliceint", "sliceptrint"})
+		c.Dests = r.Pick([]string{"valid", "valid", "validptr", "validcap", "validmap", "validnil", "validdeep", "invalid", "none", "nonptr", "nilptr", "ptrnonslice", "sliceint", "sliceptrint"})
 	case "iter":
 		n := 1 + r.Intn(8)
 		for i := 0; i < n; i++ {
@@ -335,6 +355,9 @@ func genL4(r *rng.R) *l4Case {
 	}
 	if c.Op == "getall" && r.Chance(1, 4) {
 		c.GAOutcome = true
+	}
+	if c.Dests == "validdeep" && !c.HasOutputs {
+		c.Dests = "valid"
 	}
 	if c.Dests == "validmap" {
 		if !c.HasOutputs {
@@ -503,6 +526,10 @@ func runL4Case(c *l4Case) (obs *l4Obs) {
 		q = l4RawSQL
 		samples = []any{IDs{}, RawM{}}
 	}
+	if c.Dests == "validdeep" {
+		q = l4DeepSQL
+		samples = []any{IDs{}, DeepRow{}}
+	}
 	stmt, err := sqlair.Prepare(q, samples...)
 	if err != nil {
 		obs.Panic = "prepare failed: " + err.Error()
@@ -667,6 +694,7 @@ func runL4Case(c *l4Case) (obs *l4Obs) {
 		obs.Returns = append(obs.Returns, errText(qr.Run()))
 	case "get":
 		var row Row
+		var deep DeepRow
 		var oc sqlair.Outcome
 		var nilOC *sqlair.Outcome
 		var args []any
@@ -677,6 +705,8 @@ func runL4Case(c *l4Case) (obs *l4Obs) {
 			args = []any{&row}
 		case "validmap":
 			args = []any{m}
+		case "validdeep":
+			args = []any{&deep}
 		case "invalid":
 			args = []any{&Unrelated{}}
 		case "none":
@@ -698,6 +728,12 @@ func runL4Case(c *l4Case) (obs *l4Obs) {
 		gErr := qr.Get(args...)
 		obs.Returns = append(obs.Returns, errText(gErr))
 		obs.Stored = row.A
+		if c.Dests == "validdeep" {
+			obs.Stored = deep.A
+			if gErr == nil && !deepFaithful(deep, deep.A) {
+				obs.RowsFaithful = false
+			}
+		}
 		if c.Dests == "validmap" {
 			obs.Stored, _ = m["a"].(int64)
 			if v, ok := m["l"]; gErr == nil && c.NullL && (!ok || v != nil || len(m) != 3) {
@@ -727,10 +763,13 @@ func runL4Case(c *l4Case) (obs *l4Obs) {
 		}
 		ms := []sqlair.M{{"a": int64(100), "b": "prior"}}
 		var nilRows []Row // stays nil unless GetAll succeeds
+		deeps := []DeepRow{{DeepMid: DeepMid{DeepIn{DeepLeaf{A: 100, B: "prior"}}}}}
 		var args []any
 		switch c.Dests {
 		case "validnil":
 			args = []any{&nilRows}
+		case "validdeep":
+			args = []any{&deeps}
 		case "validmap":
 			args = []any{&ms}
 		case "valid", "validcap":
@@ -755,7 +794,15 @@ func runL4Case(c *l4Case) (obs *l4Obs) {
 		}
 		gaErr := qr.GetAll(args...)
 		obs.Returns = append(obs.Returns, errText(gaErr))
-		if c.Dests == "validnil" {
+		if c.Dests == "validdeep" {
+			obs.Prior = len(deeps) >= 1 && deeps[0].A == 100 && deeps[0].B == "prior" && deeps[0].L == "" && deeps[0].Extra == 0
+			for _, r := range deeps[1:] {
+				obs.Appended = append(obs.Appended, r.A)
+				if !deepFaithful(r, r.A) {
+					obs.RowsFaithful = false
+				}
+			}
+		} else if c.Dests == "validnil" {
 			// nothing was there before: on any error the slice is still nil (not an empty
 			// slice), on success it holds exactly the rows
 			obs.Prior = gaErr == nil || nilRows == nil
